@@ -5,9 +5,10 @@ import Hive.Model.C12aQueue
 import Hive.Model.C12aRing
 import Hive.Model.C12aStack
 import Hive.Model.C12aCb
+import Hive.Model.C12aOwn
 /-!
 Driver for C12 part A: the first token of a request selects the container model
-(`shrink | rmap | gh | pq | tpq | queue | ring | stack`), the rest is that model's request.
+(`shrink | rmap | gh | pq | tpq | queue | ring | stack | own`), the rest is that model's request.
 -/
 open Hive.C12a
 
@@ -20,6 +21,7 @@ structure All where
   queue : Queue.St := Queue.init 1
   ring : Ring.St := Ring.init 1
   stack : Stack.St := Stack.init
+  own : Own.St := Own.init
 
 /-- The white-box state of the model is appended to every answer (`bad-op` stays bare): model and
 code are compared after every operation, not only through what the operation returns. -/
@@ -34,6 +36,7 @@ def stepAll (a : All) : List String → All × String
   | "queue" :: t => let r := Queue.stepLine a.queue t; ({ a with queue := r.1 }, withState r.2 (Queue.showState r.1))
   | "ring" :: t => let r := Ring.stepLine a.ring t; ({ a with ring := r.1 }, withState r.2 (Ring.showState r.1))
   | "stack" :: t => let r := Stack.stepLine a.stack t; ({ a with stack := r.1 }, withState r.2 (Stack.showState r.1))
+  | "own" :: t => let r := Own.stepLine a.own t; ({ a with own := r.1 }, withState r.2 (Own.showState r.1))
   | "cb" :: t => (a, withState (Cb.stepLine t) "-")
   | _ => (a, "bad-op")
 
